@@ -5,7 +5,7 @@ import os
 from .. import f1, gen, e2e, wasm, cexec, interp, runner
 from ..choice import Chooser
 from ..wasm import I32, I64, F32, F64
-from . import c02, c03, c04, c05, c06  # noqa: F401  (registers the makers reused here)
+from . import c01, c02, c03, c04, c05, c06  # noqa: F401  (registers the makers reused here)
 
 ID = 'C11'
 LEVEL = 'exploration'
@@ -35,7 +35,7 @@ for _cc in ('gcc', 'clang'):
 for _cc in ('gcc', 'clang'):
     for _o, _std in (('-O0', '-std=gnu99'), ('-O2', '-std=gnu11'), ('-O1', '-std=gnu2x'), ('-O2', '-std=gnu99'), ('-O0', '-std=gnu2x')):
         CELLS.append((_cc, (_o, _std)))
-MAKERS = ['c02_expr', 'c03_ctrl', 'c04_calls', 'c05_history', 'c06_inst', 'c11_names', 'c03_ctrl']
+MAKERS = ['c02_expr', 'c03_ctrl', 'c04_calls', 'c05_history', 'c06_inst', 'c11_names', 'c03_ctrl', 'c01_expr']
 
 HAZ = ('signbit', 'count>=width', 'carry', 'truncboundary', 'div-1', 'dividendMIN')
 
